@@ -14,3 +14,24 @@ package types
 //@   ensures @denoms finalClaim.Denom == amountToClaim.Denom && fee.Denom == amountToClaim.Denom
 //@   hint Amt(amountToClaim) * dval(valFee) <= Amt(amountToClaim) * ONE
 //@   hint 0 <= Amt(amountToClaim) * dval(valFee)
+
+//@ func CalculateDuration(deposit, flowRate) (dur)
+//@   props C11 C12
+//@   requires !isnil(deposit.Amount) && 0 <= Amt(deposit) && Amt(deposit) < P255
+//@   requires validDenom(deposit.Denom)
+//@   nopanic
+//@   ensures @floor flowRate >= 1 ==> dur == min(Amt(deposit) / flowRate, 2^63 - 1)
+//@   ensures @nonpositive_rate flowRate <= 0 ==> dur == 0
+
+//@ func CalculateAmountToClaim(nowTime, depositZeroTime, lastOutflowTime, deposit, flowRate) (claim, rem)
+//@   props C10 C11 C12
+//@   requires flowRate >= 1
+//@   requires !isnil(deposit.Amount) && 0 <= Amt(deposit) && Amt(deposit) < P255
+//@   requires validDenom(deposit.Denom)
+//@   requires UnixNs(lastOutflowTime) <= UnixNs(nowTime)
+//@   nopanic
+//@   let secs := (UnixNs(nowTime) - UnixNs(lastOutflowTime)) / 1000000000
+//@   ensures @all_after_zero UnixNs(nowTime) >= UnixNs(depositZeroTime) ==> Amt(claim) == Amt(deposit) && Amt(rem) == 0
+//@   ensures @exact_rate UnixNs(nowTime) < UnixNs(depositZeroTime) ==> Amt(claim) == min(Amt(deposit), flowRate * secs)
+//@   ensures @conserve Amt(claim) + Amt(rem) == Amt(deposit) && Amt(rem) >= 0
+//@   ensures @denoms claim.Denom == deposit.Denom && rem.Denom == deposit.Denom
